@@ -17,6 +17,8 @@ impl Property for C01 {
             Segment::random("large", tier.pick(5_000, 60_000), &[2], 8, 300),
             Segment::enumerated("huge(>2^32 bits)", tier.pick(5, 30), &[9]),
             Segment::enumerated("huge-dense(>2^33 bits, all ones)", tier.pick(1, 3), &[10]),
+            // upper blocks that are empty except for their last counter block
+            Segment::enumerated("huge-upper-block-tails", tier.pick(6, 24), &[11]),
         ]
     }
     fn rule(&self) -> &'static str {
@@ -24,10 +26,10 @@ impl Property for C01 {
     }
     fn run(&self, data: &[u8], cx: &mut Ctx) -> R {
         let (mode, rest) = data.split_first().unwrap_or((&0, &[]));
-        if *mode == 9 || *mode == 10 {
+        if *mode == 9 || *mode == 10 || *mode == 11 {
             let mut b = [0u8; 8];
             b[..rest.len().min(8)].copy_from_slice(&rest[..rest.len().min(8)]);
-            let j = u64::from_le_bytes(b) + if *mode == 10 { 1000 } else { 0 };
+            let j = u64::from_le_bytes(b) + if *mode == 11 { 5000 } else if *mode == 10 { 1000 } else { 0 };
             cx.hash(&("huge", j));
             cx.describe(|| format!("huge case {j}: more than 2^32 bits, pattern {}", j % 5));
             return crate::huge::rank_case(cx, j);
